@@ -306,6 +306,10 @@ def r3(ctx):
                         ok = False
                 elif isinstance(name, ast.Constant):
                     ok = True
+                elif isinstance(name, ast.Subscript) and norm(name.value) == "self._fields":
+                    # the name is taken from the class's own field list in place: an index, never a string from the stream
+                    ok = True
+                    src = norm(name)
                 else:
                     ok = False
                 if not ok:
